@@ -1,8 +1,51 @@
 import AFV.Driver.Proto
+import AFV.Driver.ArchTreeJson
 namespace AFV.Driver.C26
-open Lean AFV.Proto
+open Lean AFV.Proto AFV.ArchTree AFV.Driver.ArchTreeJson
 
-/-- Handler for property C26 requests (stub: not implemented yet). -/
-def handle (_req : Json) : Json := err "unimplemented"
+def totalsJson (l : List Total) : Json :=
+  Json.arr (l.map fun x => Json.arr #[Json.str x.name, ofNat x.count, ofInt x.totalArea, ofInt x.totalLeak]).toArray
+
+/-- Which situations of the walk a tree exercises (evidence only). -/
+def features (t : Nodes) : List String :=
+  let ys := (iter .current t []).1
+  let f1 := if ys.any (fun p => p.1.component && p.1.fanout != 1) then ["own-fanout"] else []
+  let f2 := if ys.any (fun p => p.1.component && p.2.any (fun q => q.compute && q.fanout != 1)) then ["sibling-compute-fanout"] else []
+  let f3 := if ys.any (fun p => p.1.component && p.2.any (fun q => !q.compute && q.fanout != 1)) then ["ancestor-fanout"] else []
+  let rec hasFork : Nodes → Bool
+    | .nil => false
+    | .leaf _ r => hasFork r
+    | .hier i r => hasFork i || hasFork r
+    | .fork _ _ => true
+  let rec hasHier : Nodes → Bool
+    | .nil => false
+    | .leaf _ r => hasHier r
+    | .hier _ _ => true
+    | .fork i r => hasHier i || hasHier r
+  f1 ++ f2 ++ f3 ++ (if hasFork t then ["fork"] else []) ++ (if hasHier t then ["nested-hier"] else [])
+
+/-- ops:
+  {"op":"totals","tree":tree} →
+     {"wf":bool, "spec":[[name,instances,totalArea,totalLeak]…], "current":[…], "fixed":[…],
+      "specArea":i,"specLeak":i, "currentArea":i,"currentLeak":i, "fixedArea":i,"fixedLeak":i,
+      "parents":[[name,[parent names of today's walk]]…], "paths":[[name,[path names]]…], "features":[…]}
+  (entries in document order of the components) -/
+def handle (req : Json) : Json :=
+  match (field? req "op").bind getStr?, (field? req "tree").bind parseTree with
+  | some "totals", some t =>
+    Json.mkObj [
+      ("wf", Json.bool (!hasDup (names t))),
+      ("spec", totalsJson (specTotals t)),
+      ("current", totalsJson (componentTotals .current t)),
+      ("fixed", totalsJson (componentTotals .fixed t)),
+      ("specArea", ofInt (specTotalArea t)), ("specLeak", ofInt (specTotalLeak t)),
+      ("currentArea", ofInt (archTotalArea .current t)), ("currentLeak", ofInt (archTotalLeak .current t)),
+      ("fixedArea", ofInt (archTotalArea .fixed t)), ("fixedLeak", ofInt (archTotalLeak .fixed t)),
+      ("parents", Json.arr ((iter .current t []).1.map fun p => Json.arr #[Json.str p.1.name, leafNames p.2]).toArray),
+      ("paths", Json.arr ((leaves t).map fun l =>
+          Json.arr #[Json.str l.name, match path t l.name with | some p => leafNames p | none => Json.null]).toArray),
+      ("features", ofStrList (features t))]
+  | some _, some _ => err "bad-op"
+  | _, _ => err "malformed"
 
 end AFV.Driver.C26
